@@ -60,7 +60,7 @@ def build(corpus):
     from whoosh.analysis import SpaceSeparatedTokenizer
     from whoosh.filedb.filestore import RamStorage
     schema = fields.Schema(k=fields.ID(stored=True, sortable=True), t=fields.TEXT(analyzer=SpaceSeparatedTokenizer(), phrase=True),
-                           n=fields.NUMERIC(int, 8, signed=True, shift_step=2))
+                           n=fields.NUMERIC(int, 8, signed=True, shift_step=2), d=fields.DATETIME)
     ix = RamStorage().create_index(schema)
     docs = corpus["docs"]
     start = 0
@@ -71,7 +71,9 @@ def build(corpus):
         # posting blocks of 1-3 entries (per corpus) so that limited searches really skip blocks by quality
         w = ix.writer(codec=W3Codec(blocklimit=corpus.get("blocklimit", 128)))
         for i in range(start, end):
-            w.add_document(k=str(i), t=" ".join(docs[i]["t"]), n=docs[i]["n"])
+            import datetime
+            w.add_document(k=str(i), t=" ".join(docs[i]["t"]), n=docs[i]["n"],
+                           d=datetime.datetime(2020, 1, 15, 12, 0, 0) + datetime.timedelta(days=docs[i]["n"]))
         w.commit(merge=False)
         start = end
     if corpus["deleted"]:
@@ -133,6 +135,23 @@ def gen_queries(rnd, corpus):
         def innum(v, a=a, b=b, sx=sx, ex=ex):
             return (a is None or v > a or (v == a and not sx)) and (b is None or v < b or (v == b and not ex))
         qs.append(("numrange %r..%r %s%s" % (a, b, sx, ex), query.NumericRange("n", a, b, sx, ex), lambda d, f=innum: f(d["n"])))
+    # date ranges over d = 2020-01-15 + n days (n in -128..127): open / closed / half-open, bounds on and between values
+    import datetime
+    base = datetime.datetime(2020, 1, 15, 12, 0, 0)
+    for _ in range(3):
+        nums = [-128, -5, -3, -1, 0, 1, 2, 5, 9, 100, 127]
+        a = rnd.choice(nums + [None, -200, 300, 3])
+        b = rnd.choice(nums + [None, -200, 300, 4])
+        if a is not None and b is not None and a > b:
+            a, b = b, a
+        sx, ex = rnd.random() < 0.5, rnd.random() < 0.5
+        da = None if a is None else base + datetime.timedelta(days=a)
+        db = None if b is None else base + datetime.timedelta(days=b)
+
+        def indate(v, a=a, b=b, sx=sx, ex=ex):
+            return (a is None or v > a or (v == a and not sx)) and (b is None or v < b or (v == b and not ex))
+        qs.append(("daterange %r..%r %s%s" % (a, b, sx, ex), query.DateRange("d", da, db, startexcl=sx, endexcl=ex),
+                   lambda d, f=indate: f(d["n"])))
     qs.append(("every t", query.Every("t"), lambda d: True))
     qs.append(("every", query.Every(), lambda d: True))
     return qs
